@@ -250,7 +250,8 @@ impl<'a> D<'a> {
         unreachable!()
     }
     fn len(&mut self) -> Result<usize, DecodeFail> {
-        Ok(self.varint(64)? as usize)
+        // lengths are varint(usize): the width of the target's pointers bounds both the value and the number of bytes
+        Ok(self.varint(usize::BITS)? as usize)
     }
     fn spend(&mut self) -> Result<(), DecodeFail> {
         if self.budget == 0 {
